@@ -252,9 +252,6 @@ func (svc *service) writeMessage(msg message.Message) (int, error) {
 		wrap bool
 	)
 
-	if svc.out == nil {
-		return 0, ErrBufferNotReady
-	}
 	verifYield("writeMessage.enter", svc.id)
 
 	// This is to serialize writes to the underlying buffer. Multiple goroutines could
@@ -272,7 +269,14 @@ func (svc *service) writeMessage(msg message.Message) (int, error) {
 	svc.wmu.Lock()
 	defer svc.wmu.Unlock()
 
-	buf, wrap, err = svc.out.WriteWait(l)
+	// Other connections' processors deliver to this service concurrently with its
+	// teardown; stop() clears the buffer under wmu, so test it under wmu too.
+	out := svc.out
+	if out == nil {
+		return 0, ErrBufferNotReady
+	}
+
+	buf, wrap, err = out.WriteWait(l)
 	if err != nil {
 		return 0, err
 	}
@@ -287,7 +291,7 @@ func (svc *service) writeMessage(msg message.Message) (int, error) {
 			return 0, err
 		}
 
-		m, err = svc.out.Write(svc.outtmp[0:n])
+		m, err = out.Write(svc.outtmp[0:n])
 		if err != nil {
 			return m, err
 		}
@@ -297,7 +301,7 @@ func (svc *service) writeMessage(msg message.Message) (int, error) {
 			return 0, err
 		}
 
-		m, err = svc.out.WriteCommit(n)
+		m, err = out.WriteCommit(n)
 		if err != nil {
 			return 0, err
 		}
